@@ -32,6 +32,8 @@ SUBJECTS = {
     "F39": "answer 400 on its own stream to an HTTP/2 request without a usable path",
     "F40": "treat a WebSocket handshake with non-ASCII header bytes as invalid",
     "F41": "a lifespan failure followed by another application error",
+    "F42": "WSGI applications may call start_response lazily",
+    "F43": "do not call the WSGI application for a request the client abandoned",
     "F34": "a failed lifespan startup is only reported once",
     "F35": "a lifespan failure the application swallowed",
     "F36": "worker_serve returns when the lifespan app is still waiting",
